@@ -6,7 +6,7 @@ package validate
 // executable code and is compiled only with the build tag `verif`.
 
 // Literal typing must not panic on any value a decoder can produce.
-//@ sweep C16 typechecker.go +Validator.typeOfValue
+//@ sweep C16 typechecker.go +Validator.typeOfValue +Validator.unsafeOptionalAccessError
 // Validating an entity or a request, and the helpers they use, must not panic for any well-formed
 // input. A Validator is built once around a resolved schema and never modified: its methods
 // assume that schema to be present (C16 quantifies over resolved schemas).
@@ -175,3 +175,10 @@ package validate
 //@   results out
 //@   ensures !isnil(out) && capOK(out)
 //@   ensures forall c capability :: capIn(out, c) == (capIn(cs, c) || capIn(other, c))
+
+// Formatting the "unsafe optional access" error must not panic whatever the access path is called
+// (the caller passes a record or an entity type).
+//@ func (Validator) unsafeOptionalAccessError
+//@   requires (t is typeRecord) || (t is typeEntity)
+//@   loop 1
+//@     invariant len(names) == len(te.lub.elements)
